@@ -331,6 +331,9 @@ func (mw *msgWriter) getMultipartBoundary(msg *Msg, mimetype MIMEType) string {
 func (mw *msgWriter) addFiles(files []*File, isAttachment bool) {
 	for _, file := range files {
 		encoding := EncodingB64
+		if file.Enc != "" {
+			encoding = file.Enc
+		}
 		if _, ok := file.getHeader(HeaderContentType); !ok {
 			mimeType := mime.TypeByExtension(filepath.Ext(file.Name))
 			if mimeType == "" {
@@ -344,9 +347,6 @@ func (mw *msgWriter) addFiles(files []*File, isAttachment bool) {
 		}
 
 		if _, ok := file.getHeader(HeaderContentTransferEnc); !ok {
-			if file.Enc != "" {
-				encoding = file.Enc
-			}
 			file.setHeader(HeaderContentTransferEnc, string(encoding))
 		}
 
